@@ -162,3 +162,31 @@ def model_for(pc, extra=(), timeout_ms=None, retries=0):
         if r == z3.unsat:
             return None
     return None
+
+
+def _second(job):
+    idx, smt2 = job
+    v, why = _cvc5(smt2)
+    return idx, v, why
+
+
+def second_opinion(obligations, nproc=None):
+    """thorough tier: every obligation z3 proved is also given to cvc5; a cvc5 `sat` on a z3 `unsat` is a
+    solver disagreement (reported as checker error, never as a pass)."""
+    jobs = []
+    for i, ob in enumerate(obligations):
+        if getattr(ob, 'verdict', None) == 'proved' and ob.backend == 'z3' and ob.kind != 'cover':
+            jobs.append((i, to_smt2(ob.pc, ob.goal)))
+    res = {'checked': len(jobs), 'agree': 0, 'cvc5_unknown': 0, 'disagree': []}
+    if not jobs:
+        return res
+    ctx = mp.get_context('fork')
+    with ctx.Pool(min(nproc or NPROC, len(jobs))) as pool:
+        for idx, v, why in pool.map(_second, jobs, chunksize=4):
+            if v == 'proved':
+                res['agree'] += 1
+            elif v == 'refuted':
+                res['disagree'].append(obligations[idx].name)
+            else:
+                res['cvc5_unknown'] += 1
+    return res
